@@ -9,7 +9,7 @@ Theorems about the mechanism model `P` (`Sigc.Model`): every state the interpret
 the invariant `Sigc.Emit.Inv` (ids unique and below the allocator, per-impl accounting
 `exec_count_ = #holders = #end markers`, `deferred_` exactly when an unlinked invalid cell waits for the
 sweep, every handle's impl exists, every `make_slot()` forwarder held by a slot refers to a live signal
-object, no model error), and everything that runs — at top level or inside any emission at any depth —
+object, a signal object owned by a functor (`ownG:`) is not pinned by a forwarder, no model error), and everything that runs — at top level or inside any emission at any depth —
 is a `Sigc.Emit.Frame` step: the emission counters are restored and the cell sequence of an impl that is
 emitting survives as a contiguous block (nothing an active emission still points at is erased).
 All statements are for every fuel, program and state; proofs are by mutual induction on fuel
@@ -173,6 +173,60 @@ example (s : St) (h : runTop 30 demo {} demo.top = some s) (i : Nat) (im : Impl)
     (hi : aget s.impls i = some im) : im.exec = 0 ∧ im.deferred = false :=
   let q := quiescent_clean 30 demo demo.top s h i im hi
   ⟨q.1, q.2.1⟩
+
+/-! `demoOwn` (program mode `owners`): the signal object `g0` is owned by a functor connected to `g1`
+(`ownG:3:g0`; `delG g0` answers `owned`).  During the emission of `g0` its first slot disconnects that
+functor: the last owning copy is gone, `collect` destroys the signal object *while it is emitting* (the
+name is dead for the rest of the body), the emission goes on (the second slot is invoked) and the slot
+list dies in the epilogue.  `safe` covers this run. -/
+
+def demoOwn : Prog := {
+  bodies := [(1, [⟨"disc c1", .disc 1⟩, ⟨"sizeq g0", .sizeq 0⟩])],
+  top := [⟨"newG g0 V", .newG 0 (some .V)⟩, ⟨"newG g1 V", .newG 1 (some .V)⟩,
+          ⟨"connfn c1 g1 ownG:3:g0", .connfn 1 1 (.ownG 3 0) false⟩,
+          ⟨"connfn c2 g0 fn:1", .connfn 2 0 (.fn 1) false⟩,
+          ⟨"connfn c3 g0 fn:2", .connfn 3 0 (.fn 2) false⟩,
+          ⟨"delG g0", .delG 0⟩,
+          ⟨"emit g0 7", .emit 0 7 .sum false⟩],
+  owners := true }
+
+/-- handles left, impls left, number of owned signal objects left, error, number of calls -/
+example : (runTop 30 demoOwn {} demoOwn.top).map (fun s =>
+      (s.G.map (·.1), s.impls.map (·.1), s.ownedG.length, s.err,
+       (s.trace.filter (fun e => match e with | .call _ _ _ => true | _ => false)).length))
+    = some ([1], [6], 0, none, 2) := by decide +kernel
+
+/-- `delG g0` was refused (`owned`); inside the first slot's body, after `disc c1`, the name `g0` is dead -/
+example : (runTop 30 demoOwn {} demoOwn.top).map (fun s =>
+      s.trace.reverse.filterMap (fun e => match e with | .res _ _ r => some r | _ => none))
+    = some ["ok", "ok", "ok", "ok", "ok", "owned", "ok", "dead", "r=void"] := by decide +kernel
+
+example (s : St) (h : runTop 30 demoOwn {} demoOwn.top = some s) : s.err = none := safe 30 demoOwn s h
+
+/-- the part of the invariant about functor-owned signal objects (`Sigc.Emit.OwnOK`), spelled out: in every
+    reachable state a signal object owned by a functor is not pinned — if a forwarder (`fwd:`) was ever made
+    of it, it is of a trackable flavour, so every forwarder tracks it and dies with it -/
+theorem owned_not_pinned (fuel : Nat) (P : Prog) (ls : List Line) (s : St) (h : runTop fuel P {} ls = some s)
+    (k g : Nat) (hd : Handle) (hk : (k, g) ∈ s.ownedG) (hg : aget s.G g = some hd) (he : hd.everFwd = true) :
+    hd.fl.isTrackable = true :=
+  (inv_reachable fuel P ls s h).own (k, g) hk hd hg he
+
+/-- non-vacuity: `g0` (trackable flavour) is owned *and* forwarded to; `g2` (not trackable) is owned, so the
+    forwarder is refused (`owned`) and `g2` stays unpinned -/
+def demoOwnFwd : Prog := {
+  bodies := [],
+  top := [⟨"newG g0 TV", .newG 0 (some .TV)⟩, ⟨"newG g1 V", .newG 1 (some .V)⟩, ⟨"newG g2 V", .newG 2 (some .V)⟩,
+          ⟨"connfn c1 g1 ownG:3:g0", .connfn 1 1 (.ownG 3 0) false⟩,
+          ⟨"connfn c2 g1 ownG:4:g2", .connfn 2 1 (.ownG 4 2) false⟩,
+          ⟨"mkS s0 V fwd:g0", .mkS 0 "V" (.fwd 0)⟩,
+          ⟨"mkS s1 V fwd:g2", .mkS 1 "V" (.fwd 2)⟩],
+  owners := true }
+
+example : (runTop 30 demoOwnFwd {} demoOwnFwd.top).map (fun s =>
+      (s.ownedG.map (·.2), s.G.map (fun p => (p.1, p.2.everFwd, p.2.fl.isTrackable)),
+       s.trace.reverse.filterMap (fun e => match e with | .res _ _ r => some r | _ => none)))
+    = some ([2, 0], [(0, true, true), (1, false, false), (2, false, false)],
+            ["ok", "ok", "ok", "ok", "ok", "ok", "owned"]) := by decide +kernel
 
 /-- `Frame` on a concrete pair of states: a connect during an emission appends after the block -/
 def exImplA : Impl := { cells := [{ id := 2, slot := {}, linked := false }], exec := 1, holders := 1 }
